@@ -8,7 +8,9 @@
 (* receive_until(d, m) for n, m in 1..MaxN and the delimiters of           *)
 (* DelimSet, feed_data of a few strings (at most MaxFeed times), aclose -  *)
 (* with NO bound on the length of the call sequence: data is only          *)
-(* consumed, so the graph is finite.                                       *)
+(* consumed, so the graph is finite.  The quick tier takes only one slice  *)
+(* (chosen by the seed) of the strings of full length MaxLen and all the   *)
+(* shorter ones; NSlices = 1 takes everything.                             *)
 (*                                                                         *)
 (* Checked: every transition of the machine satisfies every clause of the  *)
 (* observer P_ByteWrap (invariant PropertyHolds), and the observer's       *)
@@ -19,12 +21,16 @@
 (***************************************************************************)
 EXTENDS BufStream, P_ByteWrap, Json, TLC
 
-CONSTANTS MaxLen, MaxN, DelimSet, FeedSet, MaxFeed, Kinds, Emit
+CONSTANTS MaxLen, MaxN, DelimSet, FeedSet, MaxFeed, Kinds, Emit,
+          NSlices, Slice     \* of the strings of full length MaxLen only slice Slice of NSlices is explored
 
 VARIABLES st, fed, bad, tracks
 
 Bytes == {0, 1}
-Datas == UNION {[1..n -> Bytes] : n \in 0..MaxLen}
+RECURSIVE BinVal(_)
+BinVal(s) == IF s = <<>> THEN 0 ELSE 2 * BinVal(SubSeq(s, 1, Len(s) - 1)) + s[Len(s)]
+Datas == {d \in UNION {[1..n -> Bytes] : n \in 0..MaxLen} :
+            Len(d) < MaxLen \/ BinVal(d) % NSlices = Slice}
 
 SetMin(S) == CHOOSE x \in S : \A y \in S : x <= y
 
